@@ -5,7 +5,7 @@ from sim import Obj, Config, var, string, domain, W, R, P, A, N, D, RW
 
 def add_mandatory(cfg, ident=(0x11, 0x22, 0x33, 0x44), hb=0, sync_id=0x80, sync_cycle=None,
                   emcy_id=0x80, emcy_hist=0, ssdo=1, ssdo_rw=True, with1014=True, with1017=True,
-                  with1005=True, with1018=True):
+                  with1005=True, with1018=True, ssdo_dyn=False):
     cfg.add(var(0x1000, 0, D | R, 4, 0x191))
     cfg.add(var(0x1001, 0, P | R, 1, 0))
     if emcy_hist > 0:
@@ -27,8 +27,9 @@ def add_mandatory(cfg, ident=(0x11, 0x22, 0x33, 0x44), hb=0, sync_id=0x80, sync_
     for s in range(ssdo):
         cfg.add(var(0x1200 + s, 0, D | R, 1, 2))
         fl = (N | RW) if ssdo_rw else (N | R)
-        cfg.add(var(0x1200 + s, 1, fl, 4, 0x600 + 0x10 * s, "sdoid"))
-        cfg.add(var(0x1200 + s, 2, fl, 4, 0x580 + 0x10 * s, "sdoid"))
+        dyn = 0x40000000 if (ssdo_dyn and s >= 1) else 0      # additional channel "assigned dynamically" (bit 30 of both COB-IDs): enabled like any other
+        cfg.add(var(0x1200 + s, 1, fl, 4, 0x600 + 0x10 * s + dyn, "sdoid"))
+        cfg.add(var(0x1200 + s, 2, fl, 4, 0x580 + 0x10 * s + dyn, "sdoid"))
     return cfg
 
 
